@@ -278,6 +278,23 @@ static void cmd_schema_dump(void) {
     }
     if (first) fputc('-', stdout);
     printf(";%d;%d", (int)(carquet_schema_get_element(s, ne) == NULL), (int)(carquet_schema_get_element(s, -1) == NULL));
+    /* names that are NOT column names: a proper prefix of the last leaf's name, that name plus one character, and a foreign name */
+    {
+        const char* lastname = NULL;
+        for (int32_t i = 0; i < ne; i++) {
+            const carquet_schema_node_t* nd = carquet_schema_get_element(s, i);
+            if (nd && carquet_schema_node_is_leaf(nd) && carquet_schema_node_name(nd)) lastname = carquet_schema_node_name(nd);
+        }
+        int r1 = -9, r2 = -9, r3 = carquet_schema_find_column(s, "zz-no-such-column");
+        if (lastname) {
+            size_t L = strlen(lastname);
+            char* a = (char*)malloc(L + 2);
+            memcpy(a, lastname, L + 1); a[L] = 'q'; a[L + 1] = 0; r2 = carquet_schema_find_column(s, a);
+            if (L > 1) { a[L - 1] = 0; r1 = carquet_schema_find_column(s, a); }
+            free(a);
+        }
+        printf(";%d,%d,%d", r1, r2, r3);
+    }
 }
 
 /* E:<rg>:<col>  statistics / pruning calls (memory-safety exerciser; results printed compactly) */
